@@ -104,15 +104,22 @@ NEEDS = {
             'columns with a blank inside a quoted token at the wrap column',
     'C01d': 'private copies of command and cross-check command keep their '
             'base names: -c with two different files of the same base name',
-    'C02c': 'see seeded/C02c/NOTES.md',
-    'C02d': 'see seeded/C02d/NOTES.md',
+    'C02c': 'reduplicate never refreshes duplicated leaves (expr in ids): an '
+            'accepted step inserting one leaf object at several places, then '
+            'a proposal on a later copy that only there is accepted',
+    'C02d': 'last pass appended only if a symbol mutator is enabled: both '
+            'symbol mutators off, str-constants on, a string literal that '
+            'can be shortened',
     'C03c': 'get_sort no longer caches unknown: arithmetic chain nested 20 '
             'deep in the first operand over a term of unknown sort '
             '(exponential filter time)',
     'C03d': 'LetSubstitution ignores capture by the binding\'s own symbol: '
             '(let ((x (+ x 1))) (> x 0)), 2-cycle with ReplaceByChild',
-    'C04c': 'see seeded/C04c/NOTES.md',
-    'C04d': 'see seeded/C04d/NOTES.md',
+    'C04c': 'return inside finally in checker.execute swallows '
+            'KeyboardInterrupt: SIGINT while the main process waits in '
+            'communicate() (golden run or sequential ddmin)',
+    'C04d': 'recursive count_nodes: a term nested deeper than ~800 levels '
+            'that survives until the hierarchical phase',
     'C05c': 'worker cache of the unpickled base keyed by its length: '
             'parallel ddmin, an accepted step that keeps the pickle size '
             '(7 -> 0), then a second step in the same batch',
